@@ -7,6 +7,10 @@ ops:
   perm                                        → {"blocks","row_perm","col_perm","sizes"} | {"err":"ValueError"|"AssertionError"}
   invperm  + "row_perm","col_perm","sizes"    → {"dense"} | {"err":"singular"}
   pinv     (perm, then invperm with its result) → {"dense"} | {"err":"singular"|"ValueError"|"AssertionError"}
+  invert_opt + "sizes","method","fmt_ok"      → as invert | {"err":"ValueError"|"TypeError"|"singular"}
+  bdi      {"m":[…],"n":[…]} (no matrix)       → {"i","j"}
+Answers that carry an inverse also carry "hyp_ok": the decidable hypothesis (`blockHyp` /
+`pipelineHyp`) of the `_checked` pipeline theorems, evaluated on this very input.
 Whenever an inverse is returned the driver re-checks A·X = I and X·A = I exactly over the
 rationals and answers {"err":"model-failure"} otherwise.  This is redundancy: the identities are
 theorems (`invertDiagonalBlocks_correct`, `invertPermuted_correct` in Props.lean).
@@ -37,6 +41,13 @@ def isInverse (n : Nat) (A X : Mat) : Bool :=
 
 def step (_ : Unit) (j : Json) : R (Unit × Json) := do
   let op ← fStr j "op"
+  if op == "bdi" then
+    -- block_diag_index(m, n), two-argument branch
+    let m ← fNats j "m"
+    let n ← fNats j "n"
+    if m.length != n.length then throw "bdi: lengths" else
+    let r := blockDiagIndexRect 0 0 m n
+    return ((), obj [("i", ofNats r.1), ("j", ofNats r.2)])
   let (nr, nc, A) ← readMat j
   match op with
   | "invert" =>
@@ -50,7 +61,21 @@ def step (_ : Unit) (j : Json) : R (Unit × Json) := do
       let Am := (A.take m).map (·.take m)
       if !isInverse m Am r.dense then pure ((), err "model-failure") else
       pure ((), obj [("indices", ofNats r.indices), ("indptr", ofNats r.indptr),
-                     ("data", ofRats r.data), ("dense", ofMat r.dense)])
+                     ("data", ofRats r.data), ("dense", ofMat r.dense),
+                     ("hyp_ok", Json.bool (blockHyp nr A sizes))])
+  | "invert_opt" =>
+    -- option handling: "method" (string or null), "fmt_ok" (the real input is csr/csc)
+    let sizes ← fNats j "sizes"
+    let fmtOk ← fBool j "fmt_ok"
+    let method ← field j "method" >>= jOpt jStr
+    match invertDiagonalBlocksOpt fmtOk method A sizes with
+    | .error .singular => pure ((), err "singular")
+    | .error .unknownMethod => pure ((), err "ValueError")
+    | .error .badFormat => pure ((), err "TypeError")
+    | .ok r =>
+      pure ((), obj [("indices", ofNats r.indices), ("indptr", ofNats r.indptr),
+                     ("data", ofRats r.data), ("dense", ofMat r.dense),
+                     ("hyp_ok", Json.bool (blockHyp nr A sizes))])
   | "perm" =>
     match permSearch nr nc A with
     | .error .valueError => pure ((), err "ValueError")
@@ -68,7 +93,7 @@ def step (_ : Unit) (j : Json) : R (Unit × Json) := do
     | none => pure ((), err "singular")
     | some X =>
       if !isInverse nr A X then pure ((), err "model-failure") else
-      pure ((), obj [("dense", ofMat X)])
+      pure ((), obj [("dense", ofMat X), ("hyp_ok", Json.bool (pipelineHyp nr A rp cp sizes))])
   | "pinv" =>
     if nr != nc then throw "pinv: not square" else
     match permSearch nr nc A with
@@ -79,7 +104,8 @@ def step (_ : Unit) (j : Json) : R (Unit × Json) := do
       | none => pure ((), err "singular")
       | some X =>
         if !isInverse nr A X then pure ((), err "model-failure") else
-        pure ((), obj [("dense", ofMat X)])
+        pure ((), obj [("dense", ofMat X),
+                       ("hyp_ok", Json.bool (pipelineHyp nr A p.rowPerm p.colPerm p.sizes))])
   | _ => throw s!"unknown op {op}"
 
 def main : IO Unit := runDriver () step
